@@ -37,7 +37,9 @@ def micro_prim_jobs():
 
 
 def jobs(tier):
-    return codec.codec_jobs(tier, want=('layout', 'writer')) + micro_prim_jobs()
+    from props import c03
+    # the C++ gateway's frame header parse against the documented header layout (shared with C03)
+    return codec.codec_jobs(tier, want=('layout', 'writer')) + micro_prim_jobs() + [j for j in c03.mgw_jobs() if j.name == 'mgw_GetBodySize']
 
 
 def meta(tier):
